@@ -73,6 +73,10 @@ func (h *Hist) genWritePath(root *Node) []seg {
 				s.idx = n
 			case c == 4:
 				s.idx = n + 1 + h.d.Draw("path-pad", 3)
+				if h.d.Draw("path-pad-far", 4) == 0 {
+					s.idx = n + 4 + h.d.Draw("path-pad-far-n", 40) // padding well beyond any small threshold
+					h.counters["probe:tf-pad-far"]++
+				}
 			default:
 				if n > 0 {
 					s.idx = n - 1
@@ -169,7 +173,7 @@ func opSetTF(h *Hist) {
 		}
 	}
 	for _, p := range onPath {
-		if len(p.Elems) > h.maxSlots {
+		if len(p.Elems) > 400 {
 			return
 		}
 	}
